@@ -1,21 +1,20 @@
 """C01 - allocated blocks never overlap, are aligned and in range, under any interleaving.
 
-Concurrent part (lower allocator, machine M1 = coq/LowerMachine.v): real OS threads run the compiled
-`Lower::get/put` under a deterministic scheduler (harness/src/bin/schedrun.rs, one scheduling point per
-atomic access of `Atom`), every step is replayed on the extracted machine (driver/step.ml: CORR = the
-implementation's step/result/memory differs from the machine's) and the blocks the implementation handed
-out are checked to be aligned, in range and pairwise disjoint after every return (ORACLE [C01]; evaluated
-on the implementation's results only).  Failing schedules are shrunk by delta debugging over the thread-id
-list."""
+Lower allocator: machine M1 (coq/LowerMachine.v) with the theorem conc_safe; whole allocator: machine M2
+(coq/UpperMachine.v, exploration only).  Real OS threads run the compiled code under a deterministic
+scheduler (harness/src/bin/schedrun.rs, one scheduling point per atomic access of `Atom`), every step is
+replayed on the extracted machine (CORR) and the blocks the implementation handed out are checked to be
+aligned, in range and pairwise disjoint after every return (ORACLE [C01], on the implementation's results
+only).  Failing schedules are shrunk by delta debugging over the thread-id list."""
+import json
 import os
 
 import schedcommon as sc
-import vlib
+import schedprop
+import schedupper
+import seqextra
 
-# filled in by the lead once Properties/C01.v exists
-THEOREMS = []
-TAG = "[C01]"
-GEOMETRIES = [("tree_huge_1",), ("tree_huge_2",), (), ("tree_huge_8",)]   # () = default TREE_HUGE = 4
+THEOREMS = {"C01.v": json.load(open(os.path.join(os.path.dirname(__file__), "_theorems.json")))["C01"]}
 
 
 def jobs(ctx, rel):
@@ -28,79 +27,22 @@ def jobs(ctx, rel):
             ["--mode", "pct", "--scenario", "all", "--runs", "20000", "--depth", "4", "--seed", str(ctx.seed)]]
 
 
-def run_replay(ctx, exe, oracle, corr):
-    """./check C01 --replay <file>: re-run the REPLAY lines of a replay file"""
-    for scenario, feats, sched in sc.parse_replay_file(ctx.replay):
-        rel = vlib.build_harness(ctx, [sc.HARNESS_BIN], feats)
-        if rel is None:
-            corr.append(("build failed", ctx.notes[-1:]))
-            continue
-        fails, summ, tr = sc.replay(ctx, rel, exe, scenario, sched)
-        ctx.suites.append({"suite": "replay %s %s" % (scenario, ",".join(map(str, sched))), "evaluations": summ.get("evaluations", 0),
-                           "distinct": summ.get("distinct", 0)})
-        for f in fails:
-            f.features = feats
-            item = (f.text, sc.replay_lines(f, None, feats))
-            if f.kind == "ORACLE" and f.tag == TAG:
-                oracle.append(item)
-            elif f.kind != "ORACLE":
-                corr.append(item)
-
-
 def run(ctx):
-    proofs_ok = True
-    if THEOREMS:
-        proofs_ok = vlib.coq_prove(ctx, os.path.join(vlib.COQ, "Properties", "C01.v"), THEOREMS)
-    else:
-        ctx.notes.append("no theorem list yet (Properties/C01.v is added by the lead)")
-    oracle, corr = [], []
-    exe = vlib.build_driver(ctx, sc.DRIVER)
-    if exe is None:
-        corr.append(("driver build failed", ctx.notes[-1:]))
-    elif ctx.replay:
-        run_replay(ctx, exe, oracle, corr)
-    else:
-        geoms = [()] if ctx.quick else GEOMETRIES
-        for feats in geoms:
-            rel = vlib.build_harness(ctx, [sc.HARNESS_BIN], feats)
-            if rel is None:
-                corr.append(("harness build failed (%s)" % (",".join(feats) or "default"), ctx.notes[-1:]))
-                continue
-            label = ",".join(feats) or "default"
-            fails, summ, notes = sc.run_jobs(ctx, rel, exe, jobs(ctx, rel), feats, label=vlib.feat_dir(feats),
-                                             timeout=80 if ctx.quick else 1000)
-            ctx.notes += notes
-            mine = [f for f in fails if f.kind == "ORACLE" and f.tag == TAG]
-            other = [f for f in fails if f.kind == "ORACLE" and f.tag != TAG]
-            bad = [f for f in fails if f.kind != "ORACLE"]
-            ctx.suites.append({
-                "suite": "schedrun|step (%s): compiled Lower::get/put under a deterministic scheduler vs machine M1 "
-                         "(CORR) and the held-blocks oracle (ORACLE [C01])" % label,
-                "evaluations": summ.get("evaluations", 0), "distinct": summ.get("distinct", 0),
-                "runs": summ.get("runs", 0), "max_steps": summ.get("maxsteps", 0), "failed_cas_steps": summ.get("failed_cas", 0),
-                "prologue_calls": summ.get("pre", 0), "panics": summ.get("panics", 0),
-                "modes": {k[5:]: v for k, v in summ.items() if k.startswith("mode:")},
-                "scenarios": {k[4:]: v for k, v in summ.items() if k.startswith("scn:")},
-                "oracle_failures_of_other_properties": len(other),
-                "other_tags": sorted({f.tag for f in other}),
-            })
-            # shrink one representative per kind of failure
-            for f in sc.group_failures(mine, 1)[:3] + sc.group_failures(bad, 1)[:3]:
-                shrunk = sc.shrink(ctx, rel, exe, f, budget=120) if f.scenario else None
-                item = (f.text if not shrunk else shrunk[3].text, sc.replay_lines(f, shrunk, feats))
-                (oracle if f.kind == "ORACLE" else corr).append(item)
-            if rel and not ctx.samples:
-                rc, out = vlib.sh([os.path.join(rel, sc.HARNESS_BIN), "--mode", "replay", "--scenario", "get7-get0row1",
-                                   "--schedule", "0,0,0,0,0,0,1,1,1,1,1"])
-                ctx.samples += [ln for ln in out.split("\n") if ln.startswith(("CALL", "S ", "RET"))][:8]
-    vlib.classify(ctx, proofs_ok, oracle, corr, name="schedrun/step")
-    return vlib.finish(
-        ctx,
-        "Machine M1 (one transition per atomic access of the lower allocator, any number of threads, any schedule) is "
-        "tied to the compiled code by replaying every scheduled step of real threads on the extracted machine; the "
-        "held-blocks predicate is evaluated on the implementation's own results after every return.",
-        "schedules: all schedules with at most P preemptions (a preemption = switching away from a thread in the middle "
-        "of a call; P = 2 quick; thorough: 3, and 5 for the two-thread scenarios, geometries TREE_HUGE = 1, 2, 4, 8) of every built-in scenario (1-4 threads: base gets on one tree, order 0 vs "
-        "7/8/9, get_at twice, get vs put in one row, puts of two parts of one held huge block, order 9 / tree order "
-        "races, mixed) + PCT random priority schedules; non-trivial = the schedule contains a failed CAS or a switch "
-        "away from a thread in the middle of a call; distinct = distinct (scenario, geometry, thread-id sequence)")
+    return schedprop.run(
+        ctx, THEOREMS, "[C01]", jobs,
+        "Coq theorem conc_safe on machine M1 (one transition per atomic access of lower.rs/bitfield.rs, any number of threads, "
+        "any schedule length, most general client incl. frees of parts of held blocks, every geometry and frame count, free-all "
+        "and allocate-all starts): in every reachable state the blocks handed out and not yet freed are pairwise disjoint, "
+        "aligned and in range - by an inductive invariant (each set bit has exactly one owner; counter + pending = zero bits + "
+        "transit; marker protocol) preserved by all 27 program points. It covers every upper-layer behaviour because the upper "
+        "allocator reaches allocation bits only through these calls. Tied to the code by replaying every scheduled atomic step "
+        "of real threads on the extracted machine (lower API: M1; whole allocator API: M2) and evaluating the held-blocks "
+        "predicate on the implementation's own results after every return.",
+        "lower-API schedules: all schedules with at most P preemptions (P = 2 quick; thorough: 3, and 5 for two-thread scenarios, "
+        "geometries TREE_HUGE = 1, 2, 4, 8) of every built-in scenario (1-4 threads) + PCT random priority schedules; "
+        + schedupper.RULE + "; non-trivial = the schedule contains a failed CAS or a switch away from a thread in the middle of a "
+        "call; distinct = distinct (scenario, geometry, thread-id sequence)",
+        "compiled Lower::get/put under a deterministic scheduler vs machine M1 (CORR) and the held-blocks oracle (ORACLE [C01])",
+        more=[(schedupper.upper_jobs, schedupper.DESC, sc.UPPER_DRIVER)],
+        # 'plus every sequential history': a returned block must have been entirely free (no overlap with held blocks)
+        extra=seqextra.seq_extra(corr=("result",), oracle=("C02",)))
